@@ -62,13 +62,20 @@ let book_case size lines flag vals qs =
 
 let rand_case cfg rw rsc stream pos =
   let b s = (s = "1") in
+  let dedup = (match words cfg with [_; _; _; _; _; _; _; _; d] -> b d | _ -> false) in
   let (cfg, tlen) =
     match words cfg with
-    | [_size; depth; evk; nosort; nonull; noreduce; multicut; tlen] ->
+    | _size :: depth :: evk :: nosort :: nonull :: noreduce :: multicut :: tlen :: _ ->
       (SearchInst.mk_cfg (z_of_string depth) (b nosort) (b nonull) (b noreduce) (b multicut) (n_of_string evk), int_of_string tlen)
     | _ -> failwith ("c04 rand cfg: " ^ cfg) in
   let vs = if stream = "-" then [] else L.map n_of_string (S.split_on_char ',' stream) in
   let p = parse_pos pos in
+  if dedup then begin
+    (* Cfg.DedupSymmetry: the plain GetMove (RandomizeWindow = 0) = the first move of Analyze on the model of SearchDedup.v *)
+    if z_of_string rw <> z_of_string "0" then failwith "c04 rand: dedup needs window 0";
+    let (_, ((((pv, _), _), _), _)) = SearchDedupInst.run_analyze_d true cfg (z_of_string "0") (Search.new_state (nat_of_int tlen)) p in
+    ((match pv with m :: _ -> enc_move m | [] -> enc_move Search.move0), None, None)
+  end else
   match SearchRandInst.run_get_move cfg (z_of_string rw) (z_of_string rsc) vs (Search.new_state (nat_of_int tlen)) p with
   | Move.Ok ((_, m), _rest) -> (enc_move m, None, None)
   | Move.Err -> ("ERR", None, None)
